@@ -21,13 +21,34 @@ type fsModel struct {
 	effects   []fsEffect
 	writeIdx  *ssa.Function
 	removeDir *ssa.Function
+	evMemo    map[*ssa.Function][]fsEv
 }
 
+// fsEffect is one file-system mutation. When the primitive sits in a helper whose path is a
+// parameter or a carrier field, the effect is attributed to the helper's call in the caller
+// (fn, call) with the path classified in that context; prim is the primitive itself.
 type fsEffect struct {
 	fn    *ssa.Function
 	call  *ssa.Call
+	prim  *ssa.Call
+	chain []*ssa.Call
 	op    string   // Create, Remove, ...
 	class []string // path class per path argument
+}
+
+// pathArg returns the i-th path argument of the primitive, resolved in the effect's context.
+func (e fsEffect) pathArg(i int) ssa.Value {
+	v, _ := ctxValue(e.prim.Call.Args[i], envOfChain(e.chain))
+	return v
+}
+
+// fsAllowed is the confirmed inventory of (operation, path class) pairs.
+var fsAllowed = map[string]map[string]bool{
+	"Create":    {"raw": true, "derived(index)": true},
+	"Remove":    {"raw": true, "derived(index)": true, "index": true, "param": true},
+	"RemoveAll": {"dir": true},
+	"MkdirAll":  {"dir": true, "derived": true},
+	"Rename":    {"derived(index)→index": true},
 }
 
 var fsMutators = map[string]int{ // name -> number of path args
@@ -60,20 +81,67 @@ func (c *Ctx) fsModel() *fsModel {
 			if !ok {
 				return
 			}
-			e := fsEffect{fn: fn, call: call, op: strings.TrimPrefix(name, "os.")}
-			for i := 0; i < n; i++ {
-				e.class = append(e.class, m.pathClass(call.Call.Args[i], 0))
-			}
-			m.effects = append(m.effects, e)
+			m.liftEffect(fn, call, nil, strings.TrimPrefix(name, "os."), n, 0)
 		})
 	}
 	return m
 }
 
-// pathClass classifies a path-valued expression.
-func (m *fsModel) pathClass(v ssa.Value, depth int) string {
+// liftEffect records the primitive prim (reached from fn through chain): if its path class
+// is open (depends on a parameter or an unresolved field) and fn is a helper with static
+// callers in the package, the effect is re-evaluated at each caller instead.
+func (m *fsModel) liftEffect(fn *ssa.Function, prim *ssa.Call, chain []*ssa.Call, op string, nPaths int, depth int) {
+	var cls []string
+	env := envOfChain(chain)
+	open := false
+	for i := 0; i < nPaths; i++ {
+		k := m.classIn(prim.Call.Args[i], env, 0)
+		cls = append(cls, k)
+		if strings.Contains(k, "param") || strings.Contains(k, "unknown") {
+			open = true
+		}
+	}
+	at := prim
+	if len(chain) > 0 {
+		at = chain[0]
+	}
+	record := func() {
+		m.effects = append(m.effects, fsEffect{fn: fn, call: at, prim: prim, chain: chain, op: op, class: cls})
+	}
+	if !open || fsAllowed[op][strings.Join(cls, "→")] || depth >= 3 || fn.Parent() != nil {
+		record()
+		return
+	}
+	var sites []*ssa.Call
+	for _, cs := range m.c.P.StaticCallSites(fn) {
+		if sc, ok := cs.Instr.(*ssa.Call); ok && eng.FuncPkgPath(sc.Parent()) == eng.Mod+"/pkg/storage/file" {
+			sites = append(sites, sc)
+		} else {
+			record() // called from outside the package, deferred or as a goroutine: not liftable
+			return
+		}
+	}
+	if len(sites) == 0 {
+		record()
+		return
+	}
+	for _, sc := range sites {
+		m.liftEffect(sc.Parent(), prim, append([]*ssa.Call{sc}, chain...), op, nPaths, depth+1)
+	}
+}
+
+// pathClass classifies a path-valued expression (without calling context).
+func (m *fsModel) pathClass(v ssa.Value, depth int) string { return m.classIn(v, nil, depth) }
+
+// classIn classifies a path-valued expression evaluated in the calling context env.
+func (m *fsModel) classIn(v ssa.Value, env *fsEnv, depth int) string {
 	if depth > 6 {
 		return "unknown"
+	}
+	if prm, ok := v.(*ssa.Parameter); ok && env != nil {
+		if w, e2 := ctxValue(prm, env); w != v {
+			return m.classIn(w, e2, depth+1)
+		}
 	}
 	if f := eng.LoadedField(v); f != nil {
 		switch {
@@ -90,7 +158,7 @@ func (m *fsModel) pathClass(v ssa.Value, depth int) string {
 		}
 		switch eng.CalleeName(x.Common()) {
 		case "path/filepath.Dir":
-			return "parent(" + m.pathClass(x.Call.Args[0], depth+1) + ")"
+			return "parent(" + m.classIn(x.Call.Args[0], env, depth+1) + ")"
 		case "path/filepath.Join":
 			return "derived"
 		}
@@ -99,7 +167,7 @@ func (m *fsModel) pathClass(v ssa.Value, depth int) string {
 		}
 	case *ssa.BinOp:
 		if x.Op == token.ADD {
-			l := m.pathClass(x.X, depth+1)
+			l := m.classIn(x.X, env, depth+1)
 			if _, isC := eng.ConstString(x.Y); isC && l != "unknown" {
 				return "derived(" + l + ")"
 			}
@@ -110,7 +178,7 @@ func (m *fsModel) pathClass(v ssa.Value, depth int) string {
 	case *ssa.Phi:
 		cls := ""
 		for _, e := range x.Edges {
-			k := m.pathClass(e, depth+1)
+			k := m.classIn(e, env, depth+1)
 			if cls == "" {
 				cls = k
 			} else if cls != k {
@@ -123,7 +191,7 @@ func (m *fsModel) pathClass(v ssa.Value, depth int) string {
 			if cell := eng.CellOf(ad); cell != nil && !eng.CellEscapes(cell) {
 				cls := ""
 				for _, st := range eng.CellStores(cell) {
-					k := m.pathClass(st.Val, depth+1)
+					k := m.classIn(st.Val, env, depth+1)
 					if cls == "" {
 						cls = k
 					} else if cls != k {
@@ -135,6 +203,9 @@ func (m *fsModel) pathClass(v ssa.Value, depth int) string {
 				}
 			}
 		}
+	}
+	if sv, e2, ok := carrierField(v, env); ok {
+		return m.classIn(sv, e2, depth+1)
 	}
 	return "unknown"
 }
@@ -155,13 +226,7 @@ func checkC11(c *Ctx) {
 	if m == nil {
 		return
 	}
-	allowed := map[string]map[string]bool{
-		"Create":    {"raw": true, "derived(index)": true},
-		"Remove":    {"raw": true, "derived(index)": true, "index": true, "param": true},
-		"RemoveAll": {"dir": true},
-		"MkdirAll":  {"dir": true, "derived": true},
-		"Rename":    {"derived(index)→index": true},
-	}
+	allowed := fsAllowed
 	nEff := 0
 	for _, e := range m.effects {
 		nEff++
@@ -207,45 +272,48 @@ func checkC11(c *Ctx) {
 			r.Bad("C11/ATOMIC/index", cons, site, "os.Rename(%s, %s): the index must be installed from a derived temporary path onto mbox.indexPath", rn.class[0], rn.class[1])
 			continue
 		}
-		// the temp file: Create(derived(index)) in the same function dominating the rename
-		var create *ssa.Call
-		for _, e := range m.effects {
-			if e.op == "Create" && e.fn == rn.fn && e.class[0] == "derived(index)" && eng.Dominates(e.call, rn.call) {
-				create = e.call
+		// the temp file: Create(derived(index)) in the same function dominating the rename,
+		// directly or inside a helper that reports success only after the creation succeeded
+		evs := m.events(rn.fn)
+		good := func(ev fsEv) bool {
+			// the operation happened and succeeded on every path to the rename
+			if !eng.Dominates(ev.at, rn.call) {
+				return false
+			}
+			if !ev.direct && !ev.onSuccess {
+				return false
+			}
+			c, ok := ev.at.(*ssa.Call)
+			if !ok {
+				return false
+			}
+			ev2 := errResultOf(c)
+			return ev2 == nil && ev.direct && ev.op == "NewWriter" || ev2 != nil && knownNilAt(ev2, rn.call.Block())
+		}
+		var create *fsEv
+		for i, ev := range evs {
+			if ev.op == "Create" && len(ev.class) == 1 && ev.class[0] == "derived(index)" && good(ev) {
+				create = &evs[i]
 			}
 		}
 		if create == nil {
 			r.Bad("C11/ATOMIC/index", cons, site, "no os.Create of the temporary index dominates the rename")
 			continue
 		}
-		var fileV ssa.Value
-		for _, ref := range *create.Referrers() {
-			if e, ok := ref.(*ssa.Extract); ok && e.Index == 0 {
-				fileV = e
-			}
-		}
+		fileV := fileOfCreate(create.at.(*ssa.Call))
 		flushOK, closeOK := false, false
-		eng.EachInstr(rn.fn, func(in ssa.Instruction) {
-			call, ok := in.(*ssa.Call)
-			if !ok || !eng.Dominates(call, rn.call) {
-				return
-			}
-			switch eng.CalleeName(call.Common()) {
-			case "(*bufio.Writer).Flush":
-				if knownNilAt(call, rn.call.Block()) {
+		for _, ev := range evs {
+			switch ev.op {
+			case "Flush":
+				if good(ev) {
 					flushOK = true
 				}
-			case "(*os.File).Close":
-				if resolveCell(call.Call.Args[0]) == fileV && knownNilAt(call, rn.call.Block()) {
+			case "Close":
+				if good(ev) && sameFile(ev, *create, fileV) {
 					closeOK = true
 				}
 			}
-			// a package helper that reports success only after a successful Flush
-			if g := eng.StaticCallee(call.Common()); g != nil && eng.FuncPkgPath(g) == eng.Mod+"/pkg/storage/file" &&
-				knownNilAt(call, rn.call.Block()) && succeedsOnlyAfter(g, "(*bufio.Writer).Flush") {
-				flushOK = true
-			}
-		})
+		}
 		switch {
 		case !flushOK:
 			r.Bad("C11/ATOMIC/index", cons, site, "the rename is not dominated by a successful (*bufio.Writer).Flush of the temporary index: a short index can be installed")
@@ -352,54 +420,99 @@ func succeedsOnlyAfter(g *ssa.Function, op string) bool {
 // anchor instruction and are all known to have succeeded in the anchor's block.
 func (c *Ctx) rawWriteSeq(m *fsModel, fn *ssa.Function, anchor ssa.Instruction) (create *ssa.Call, problem string) {
 	var copyC, flush, closeC *ssa.Call
-	eng.EachInstr(fn, func(in ssa.Instruction) {
-		call, ok := in.(*ssa.Call)
-		if !ok {
-			return
+	var createEv *fsEv
+	evs := m.events(fn)
+	usable := func(ev fsEv) bool { return ev.direct || ev.onSuccess }
+	for i, ev := range evs {
+		c, ok := ev.at.(*ssa.Call)
+		if !ok || !usable(ev) {
+			continue
 		}
-		switch eng.CalleeName(call.Common()) {
-		case "os.Create":
-			if m.pathClass(call.Call.Args[0], 0) == "raw" {
-				create = call
+		switch ev.op {
+		case "Create":
+			if len(ev.class) == 1 && ev.class[0] == "raw" {
+				create, createEv = c, &evs[i]
 			}
-		case "io.Copy":
-			copyC = call
-		case "(*bufio.Writer).Flush":
-			flush = call
+		case "Copy":
+			copyC = c
+		case "Flush":
+			flush = c
 		}
-	})
+	}
 	if create == nil || copyC == nil || flush == nil {
 		return create, "no create/copy/flush sequence for the raw file"
 	}
-	var fileV ssa.Value
-	for _, ref := range *create.Referrers() {
-		if e, ok := ref.(*ssa.Extract); ok && e.Index == 0 {
-			fileV = e
+	fileV := fileOfCreate(create)
+	for _, ev := range evs {
+		c, ok := ev.at.(*ssa.Call)
+		if !ok || ev.op != "Close" || !usable(ev) || !sameFile(ev, *createEv, fileV) {
+			continue
+		}
+		if e := errResultOf(c); e != nil && eng.Dominates(c, anchor) && knownNilAt(e, anchor.Block()) {
+			closeC = c
 		}
 	}
-	eng.EachInstr(fn, func(in ssa.Instruction) {
-		call, ok := in.(*ssa.Call)
-		if ok && eng.CalleeName(call.Common()) == "(*os.File).Close" && resolveCell(call.Call.Args[0]) == fileV && eng.Dominates(call, anchor) && knownNilAt(call, anchor.Block()) {
-			closeC = call
-		}
-	})
-	var errCopy ssa.Value
-	for _, ref := range *copyC.Referrers() {
-		if e, ok := ref.(*ssa.Extract); ok && e.Index == 1 {
-			errCopy = e
-		}
-	}
+	errCopy, errFlush := errResultOf(copyC), errResultOf(flush)
 	switch {
 	case !(eng.Dominates(create, copyC) && eng.Dominates(copyC, flush) && eng.Dominates(flush, anchor)):
 		return create, "create → copy → flush → index update are not in dominance order: the index can list a message whose body is not fully on disk"
 	case errCopy == nil || !knownNilAt(errCopy, anchor.Block()):
 		return create, "the index update is reachable after a failed io.Copy"
-	case !knownNilAt(flush, anchor.Block()):
+	case errFlush == nil || !knownNilAt(errFlush, anchor.Block()):
 		return create, "the index update is reachable after a failed Flush"
 	case closeC == nil:
 		return create, "the index update is not dominated by a successful Close of the raw file"
 	}
 	return create, ""
+}
+
+// errResultOf returns the error result of a call (the call itself, or the extract of its
+// last tuple component when that is an error).
+func errResultOf(call *ssa.Call) ssa.Value {
+	if tup, ok := call.Type().(*types.Tuple); ok {
+		n := tup.Len()
+		if n == 0 || !isErrorType(tup.At(n-1).Type()) {
+			return nil
+		}
+		for _, ref := range *call.Referrers() {
+			if e, ok := ref.(*ssa.Extract); ok && e.Index == n-1 {
+				return e
+			}
+		}
+		return nil
+	}
+	if isErrorType(call.Type()) {
+		return call
+	}
+	return nil
+}
+
+// fileOfCreate: the first result of a direct os.Create call.
+func fileOfCreate(create *ssa.Call) ssa.Value {
+	for _, ref := range *create.Referrers() {
+		if e, ok := ref.(*ssa.Extract); ok && e.Index == 0 {
+			return e
+		}
+	}
+	return nil
+}
+
+// sameFile: the Close event closes the file the Create event created. Direct calls: the
+// closed value is the created one. Through a carrier: the close helper is called on the value
+// the creating helper returned, and it closes the field in which the constructor stored the
+// created file.
+func sameFile(cl, cr fsEv, fileV ssa.Value) bool {
+	if cl.direct && cr.direct {
+		return fileV != nil && resolveCell(cl.prim.Call.Args[0]) == fileV
+	}
+	env := envOfChain(cl.chain)
+	v, _ := ctxValue(cl.prim.Call.Args[0], env)
+	if ex, ok := v.(*ssa.Extract); ok && ex.Index == 0 {
+		if c, ok := ex.Tuple.(*ssa.Call); ok && c == cr.prim {
+			return true
+		}
+	}
+	return fileV != nil && v == fileV
 }
 
 func (c *Ctx) c11Add(m *fsModel) {
@@ -422,13 +535,35 @@ func (c *Ctx) c11Add(m *fsModel) {
 			W = e.fn
 		}
 	}
+	// removals the failing operation performed itself (a helper that discards the file when
+	// it fails) cover the error returns taken on its failure edge
+	coveredByFailingOp := func(fn *ssa.Function, ret *ssa.Return) bool {
+		for _, ev := range m.events(fn) {
+			if ev.op != "Remove" || len(ev.class) != 1 || ev.class[0] != "raw" || ev.direct || !ev.onFailure {
+				continue
+			}
+			if c, ok := ev.at.(*ssa.Call); ok {
+				if e := errResultOf(c); e != nil && eng.Dominates(c, ret) && eng.KnownNonNil(e, ret.Block()) {
+					return true
+				}
+			}
+		}
+		return false
+	}
 	if widx == nil || W == nil {
 		r.Bad("C11/ORDER/add", cons, p.Pos(add.Pos()), "AddMessage no longer has the create/copy/flush/index-update sequence (create=%v writeIndex=%v)", W != nil, widx != nil)
 		return
 	}
 	isRmRaw := func(in ssa.Instruction) bool {
-		call, ok := in.(*ssa.Call)
-		return ok && eng.CalleeName(call.Common()) == "os.Remove" && m.pathClass(call.Call.Args[0], 0) == "raw"
+		if _, ok := in.(*ssa.Call); !ok {
+			return false
+		}
+		for _, ev := range m.eventsAt(in) {
+			if ev.op == "Remove" && len(ev.class) == 1 && ev.class[0] == "raw" && (ev.direct || ev.always) {
+				return true
+			}
+		}
+		return false
 	}
 	errReturn := func(in ssa.Instruction) bool {
 		ret, ok := in.(*ssa.Return)
@@ -436,7 +571,10 @@ func (c *Ctx) c11Add(m *fsModel) {
 			return false
 		}
 		res := eng.ReturnResults(ret)
-		return len(res) > 0 && !eng.IsNilConst(res[len(res)-1])
+		if len(res) == 0 || eng.IsNilConst(res[len(res)-1]) {
+			return false
+		}
+		return !coveredByFailingOp(ret.Parent(), ret)
 	}
 	// a deferred closure that removes the raw file whenever the function's named error result
 	// is non-nil cleans up every error return it dominates
@@ -555,8 +693,12 @@ func (c *Ctx) c11Add(m *fsModel) {
 			if g := eng.StaticCallee(call.Common()); g == W && W != add {
 				start = in
 			}
-			if W == add && eng.CalleeName(call.Common()) == "os.Create" && m.pathClass(call.Call.Args[0], 0) == "raw" {
-				start = in
+			if W == add {
+				for _, ev := range m.eventsAt(in) {
+					if ev.op == "Create" && len(ev.class) == 1 && ev.class[0] == "raw" {
+						start = in
+					}
+				}
 			}
 		})
 		if start != nil {
@@ -658,9 +800,10 @@ func (c *Ctx) c11Remove(m *fsModel) {
 		}
 		// the raw path is a call of rawPath(msg), possibly held in a local variable
 		var rc *ssa.Call
-		if x, ok := e.call.Call.Args[0].(*ssa.Call); ok {
+		pa := e.pathArg(0)
+		if x, ok := pa.(*ssa.Call); ok {
 			rc = x
-		} else if ad := eng.LoadAddr(e.call.Call.Args[0]); ad != nil {
+		} else if ad := eng.LoadAddr(pa); ad != nil {
 			if cell := eng.CellOf(ad); cell != nil {
 				for _, st := range eng.CellStores(cell) {
 					if x, ok := st.Val.(*ssa.Call); ok && eng.StaticCallee(x.Common()) == m.rawPath {
